@@ -1081,6 +1081,12 @@ class Evaluator:
         if op in ("in", "notin") and b[0] in ("list", "tuple", "set") and not any(x[0] == "star" for x in b[1]):
             c = t_or(*[t_cmp("==", a, x) for x in b[1]])
             return c if op == "in" else t_not(c)
+        if op in ("is", "isnot", "==", "!="):
+            # comparing a truth value with True / False is that truth value (or its negation)
+            for x, y in ((a, b), (b, a)):
+                if x in (TRUE, FALSE) and y[0] in ("not", "and", "or", "eq", "cmp", "in", "isinstance", "quant"):
+                    same = (x == TRUE) == (op in ("is", "=="))
+                    return y if same else t_not(y)
         if op in ("is", "isnot", "==", "!=") and NONE in (a, b):
             other = b if a == NONE else a
             if _never_none(other) or self._returns_object(other):
